@@ -5,11 +5,12 @@ looked-up local name and do not precede a leading text; refutations of the full 
 Tie: the XML-extraction correspondence of props/xe.py (documents -> E57Reader::new vs extracted extract_all),
 the witness terms of the theorems against roxmltree's trees, the witnesses on the real reader.
 Direct oracle on the real reader (base document vs variant built by construction, one class per variant):
-  (a) inert insertions  = the hypotheses of C18_foreign_elems_partial          -> dumps must be equal
+  (a) foreign insertions = the hypotheses of C18_foreign_inert (any local name, any position)  -> dumps must be equal
   (b) namespaced attributes on any element, also inside prototypes             -> dumps must be equal
   (c) extension records in prototypes (unique and standard local names)        -> U:<prefix>:<name>/<type> at its place, rest equal
-  (d) the three known shapes (same local name before the standard sibling, first child of a leaf,
-      descendant capture), generated on random documents: reported under their known classes when the dump changes.
+  (d) the three formerly known shapes (same local name before the standard sibling, first child of a leaf / inside its
+      text, descendant capture), generated on random documents: since the repairs of the crate the dump must not change;
+      a recurrence is reported under the old class name.
       (Since /repo cec9560 images2D is looked up among the children of e57Root, so a captured copy of images2D
       no longer changes the dump; the generator still produces it, data3D and the limit values are still captured.)"""
 import os, re, struct
@@ -25,10 +26,8 @@ INERT_NAMES = ["note", "meta", "Guid", "GUID", "data3d", "readius", "versionMino
 
 
 def lookup_names():
-    """the names of Spec/XeForeign.v (the hypotheses of the theorem are stated with exactly this list)"""
-    s = open(os.path.join(core.COQ, "theories", "Spec", "XeForeign.v")).read()
-    i = s.index("Definition lookup_names"); j = s.index("].", i)
-    return set(re.findall(r'B"([^"]+)"', s[i:j]))
+    """the local names the reader looks up (the pool for same-name insertions)"""
+    return set(xegen.STD_NAMES) - {"versionMinor"}
 
 
 # ----------------------------------------------------------------------------- rendering (deterministic)
@@ -83,16 +82,14 @@ def under_prototype(root):
 
 
 def positions(root):
-    """(parent, index) for every insertion position allowed by C18_foreign_elems_partial: any element that is not
-    a prototype, any index that is not directly in front of a text node"""
+    """(parent, index) for every insertion position of C18_foreign_inert: any element that is not a prototype, any index
+    (also in front of a leading text node)"""
     proto = under_prototype(root)
     out = []
     for n in xegen.elements(root):
         if id(n) in proto:
             continue
         for i in range(len(n[3]) + 1):
-            if i < len(n[3]) and n[3][i][0] == "t":
-                continue
             out.append((n, i))
     return out
 
@@ -100,9 +97,11 @@ def positions(root):
 # ----------------------------------------------------------------------------- inserted content
 
 def inert_name(rng, lookup):
-    nm = rng.choice(INERT_NAMES) if rng.chance(3, 4) else "n%d" % rng.below(1000)
-    assert nm not in lookup
-    return nm
+    """local name of an inserted foreign element: since the repairs of the crate ANY name, also the standard ones"""
+    c = rng.below(4)
+    if c == 0:
+        return rng.choice(sorted(lookup))
+    return rng.choice(INERT_NAMES) if c <= 2 else "n%d" % rng.below(1000)
 
 
 def inert_subtree(rng, lookup, typ, depth=0, default_ns=False):
@@ -287,9 +286,17 @@ def build_variants(rng, root, bi, base_dump, lookup, batch, exhaustive, budget, 
             break
         n = rng.choice(leaves)
         f = rng.choice([inert_subtree(rng, lookup, None), ["c", " note "], ["p", "pi", "v"]])
-        n[3].insert(0, f)
-        batch.add("foreign-first-child-of-leaf", bi, render_doc(root, pretty), None, "%s as first child of %s" % (f[1] if f[0] == "e" else f[0], n[1]))
-        n[3].pop(0)
+        t = n[3][0]
+        if len(t[1]) >= 2 and rng.chance(1, 3):
+            # inside the text: the text node is split around the inserted node
+            k = 1 + rng.below(len(t[1]) - 1)
+            n[3][0:1] = [xegen.T(t[1][:k], t[2]), f, xegen.T(t[1][k:], t[2])]
+            batch.add("foreign-first-child-of-leaf", bi, render_doc(root, pretty), None, "%s inside the text of %s" % (f[1] if f[0] == "e" else f[0], n[1]))
+            n[3][0:3] = [t]
+        else:
+            n[3].insert(0, f)
+            batch.add("foreign-first-child-of-leaf", bi, render_doc(root, pretty), None, "%s as first child of %s" % (f[1] if f[0] == "e" else f[0], n[1]))
+            n[3].pop(0)
     targets = [(n, p) for n, p in xegen.elements(root, True) if p is not None and n[1] in
                ("data3D", "images2D", "intensityMinimum", "intensityMaximum", "colorRedMinimum", "colorRedMaximum", "colorGreenMinimum",
                 "colorGreenMaximum", "colorBlueMinimum", "colorBlueMaximum")]
@@ -317,7 +324,6 @@ def build_variants(rng, root, bi, base_dump, lookup, batch, exhaustive, budget, 
 def direct_oracle(rep, rng, tier):
     impl = core.ensure_harness("debug")
     lookup = lookup_names()
-    assert lookup == set(xegen.STD_NAMES) - {"versionMinor"}, "xegen.STD_NAMES and Spec/XeForeign.lookup_names differ"
     n_small, n_large, budget = (16, 80, 50) if tier == "quick" else (80, 600, 120)
     stats = dict(positions_swept_exhaustively=0, positions_sampled=0, parents=set(), extension_record_std_names=0, extension_record_unique_names=0, extension_decl_levels={})
     # base documents that the reader accepts
